@@ -46,11 +46,13 @@ type vMethod struct {
 	empty     bool
 	setsRoot  bool
 	unsupCall bool // a top-level statement of the body is s.newUnsupportedRuleError(...)
+	unsupAfter bool // the body is `if s.n++; s.n > 1 { s.newUnsupportedRuleError(ctx) }`
 	parts     []int // Parts / partIdx bookkeeping operations (see partsOps)
 	actions   []vAction
 }
 
 type vExt struct {
+	nilAccessors map[string]bool // single-child accessors of rule contexts (nil when the child is absent)
 	fset      *token.FileSet
 	funcs     map[string]*ast.FuncDecl // "Recv.Name" or "Name"
 	tokenOf   map[string]int           // CypherLexerX / CypherParserX -> type
@@ -661,6 +663,31 @@ func visitorFacts(repo string, w *strings.Builder) error {
 	if err != nil {
 		return err
 	}
+	// single-child accessors of the generated rule contexts: `func (s *OC_XContext) A() antlr.TerminalNode | IOC_YContext` — they
+	// return nil when the child is absent (optional in the grammar, or missing in a tree built by error recovery)
+	nilAccessors := map[string]bool{}
+	for _, f := range pfiles {
+		for _, d := range f.Decls {
+			fd, ok := d.(*ast.FuncDecl)
+			if !ok || fd.Recv == nil || len(fd.Type.Params.List) != 0 || fd.Type.Results == nil || len(fd.Type.Results.List) != 1 {
+				continue
+			}
+			if rt := recvType(fd); !strings.HasPrefix(rt, "OC_") || !strings.HasSuffix(rt, "Context") {
+				continue
+			}
+			switch r := fd.Type.Results.List[0].Type.(type) {
+			case *ast.SelectorExpr:
+				if r.Sel.Name == "TerminalNode" {
+					nilAccessors[fd.Name.Name] = true
+				}
+			case *ast.Ident:
+				if strings.HasPrefix(r.Name, "IOC_") {
+					nilAccessors[fd.Name.Name] = true
+				}
+			}
+		}
+	}
+	x.nilAccessors = nilAccessors
 	var ruleNames, literalNames, symbolicNames []string
 	strList := func(cl *ast.CompositeLit) []string {
 		var names []string
@@ -883,7 +910,24 @@ func visitorFacts(repo string, w *strings.Builder) error {
 				}
 			}
 		}
-		methods = append(methods, vMethod{typ: rt, name: fd.Name.Name, rule: r, enter: strings.HasPrefix(fd.Name.Name, "Enter"), unsupCall: unsupCall, parts: x.partsOps(fd.Body.List, env.recv, rt, 0),
+		// `if s.<n>++; s.<n> > 1 { s.newUnsupportedRuleError(ctx) }` as the whole body: every occurrence after the first is reported
+		unsupAfter := false
+		if len(fd.Body.List) == 1 {
+			if is, ok := fd.Body.List[0].(*ast.IfStmt); ok && is.Init != nil && is.Else == nil && len(is.Body.List) == 1 {
+				if inc, ok := is.Init.(*ast.IncDecStmt); ok && inc.Tok == token.INC {
+					if be, ok := is.Cond.(*ast.BinaryExpr); ok && be.Op == token.GTR && src(x.fset, be.X) == src(x.fset, inc.X) && src(x.fset, be.Y) == "1" {
+						if es, ok := is.Body.List[0].(*ast.ExprStmt); ok {
+							if c, ok := es.X.(*ast.CallExpr); ok {
+								if sel, ok := c.Fun.(*ast.SelectorExpr); ok && sel.Sel.Name == "newUnsupportedRuleError" {
+									unsupAfter = true
+								}
+							}
+						}
+					}
+				}
+			}
+		}
+		methods = append(methods, vMethod{typ: rt, name: fd.Name.Name, rule: r, enter: strings.HasPrefix(fd.Name.Name, "Enter"), unsupCall: unsupCall, unsupAfter: unsupAfter, parts: x.partsOps(fd.Body.List, env.recv, rt, 0),
 			addsErr: callsNamed(fd.Body, "AddErrors") || callsNamed(fd.Body, "newUnsupportedRuleError"),
 			empty:   len(fd.Body.List) == 0, setsRoot: setsRoot, actions: acts})
 	}
@@ -1017,7 +1061,12 @@ func visitorFacts(repo string, w *strings.Builder) error {
 	for _, a := range atoms {
 		switch {
 		case a == "anylit":
-			codes = append(codes, "(2, 0)")
+			// (2, k): k = token type of SP when newTokenLiteralIterator skips SP tokens (comments included), else 0
+			spSkip := 0
+			if fd := x.funcs["newTokenLiteralIterator"]; fd != nil && strings.Contains(src(x.fset, fd.Body), "GetTokenType() == parser.CypherLexerSP") {
+				spSkip = x.tokenOf["CypherLexerSP"]
+			}
+			codes = append(codes, fmt.Sprintf("(2, %d)", spSkip))
 		case strings.HasPrefix(a, "tok:"):
 			codes = append(codes, "(0, "+a[4:]+")")
 		case strings.HasPrefix(a, "rule:"):
@@ -1099,6 +1148,13 @@ func visitorFacts(repo string, w *strings.Builder) error {
 		}
 	}
 	fmt.Fprintf(w, "/-- (receiver type, rule) of every EnterOC_<rule> of a visitor OTHER than BaseVisitor whose body unconditionally calls newUnsupportedRuleError -/\ndef unsupMethods : List (Nat × Nat) := [%s]\n", strings.Join(up, ", "))
+	var ua []string
+	for _, m := range methods {
+		if m.unsupAfter && m.enter {
+			ua = append(ua, fmt.Sprintf("(%d, %d)", typeIdx[m.typ], m.rule))
+		}
+	}
+	fmt.Fprintf(w, "/-- (receiver type, rule) of every EnterOC_<rule> whose body is `if s.n++; s.n > 1 { s.newUnsupportedRuleError(ctx) }`: the second and every later node of the rule met by one visitor instance is reported -/\ndef unsupAfterFirst : List (Nat × Nat) := [%s]\n", strings.Join(ua, ", "))
 	var po []string
 	for _, m := range methods {
 		if len(m.parts) > 0 {
@@ -1135,10 +1191,51 @@ func visitorFacts(repo string, w *strings.Builder) error {
 		_ = (&printer.Config{Mode: printer.RawFormat}).Fprint(&b, fset, &printer.CommentedNode{Node: &fd2, Comments: nil})
 		return strings.Join(strings.Fields(b.String()), " ")
 	}
+	// `<ctx>.A().M(…)`: a method called directly on the result of a single-child accessor — a nil dereference when the child is absent
+	var chains []string
+	{
+		var keys []string
+		for k := range x.funcs {
+			keys = append(keys, k)
+		}
+		sort.Strings(keys)
+		for _, k := range keys {
+			fd := x.funcs[k]
+			if fd.Body == nil {
+				continue
+			}
+			ast.Inspect(fd.Body, func(n ast.Node) bool {
+				outer, ok := n.(*ast.CallExpr)
+				if !ok {
+					return true
+				}
+				sel, ok := outer.Fun.(*ast.SelectorExpr)
+				if !ok {
+					return true
+				}
+				inner, ok := sel.X.(*ast.CallExpr)
+				if !ok || len(inner.Args) != 0 {
+					return true
+				}
+				isel, ok := inner.Fun.(*ast.SelectorExpr)
+				if !ok || !x.nilAccessors[isel.Sel.Name] {
+					return true
+				}
+				chains = append(chains, k+": "+src(fset, sel))
+				return true
+			})
+		}
+	}
+	fmt.Fprintf(w, "/-- every `<receiver>.A().M` in cypher/frontend where A is a single-child accessor of a generated rule context (nil when the child is absent): \"<function>: <expression>\" -/\ndef accessorChains : List String := %s\n", leanStrList(chains))
 	fmt.Fprintf(w, "def srcSyntaxError : String := %s\n", leanStr(funcSrc("Context.SyntaxError")))
 	fmt.Fprintf(w, "def srcAddErrors : String := %s\n", leanStr(funcSrc("Context.AddErrors")))
 	fmt.Fprintf(w, "def srcNewUnsupportedRuleError : String := %s\n", leanStr(funcSrc("BaseVisitor.newUnsupportedRuleError")))
 	fmt.Fprintf(w, "def srcParseCypherInner : String := %s\n", leanStr(funcSrc("parseCypher")))
+	// the five places hooks/C07-fix{1,2,3,5,6}.patch repair (each must be the old or the repaired text)
+	fmt.Fprintf(w, "def srcNewTokenLiteralIterator : String := %s\n", leanStr(funcSrc("newTokenLiteralIterator")))
+	fmt.Fprintf(w, "def srcEnterRangeLiteral : String := %s\n", leanStr(funcSrc("RelationshipPatternVisitor.EnterOC_RangeLiteral")))
+	fmt.Fprintf(w, "def srcExitNotExpression : String := %s\n", leanStr(funcSrc("ExpressionVisitor.ExitOC_NotExpression")+" "+funcSrc("JoiningVisitor.ExitOC_NotExpression")))
+	fmt.Fprintf(w, "def srcEnterPropertyLookupOfPropertyExpression : String := %s\n", leanStr(funcSrc("PropertyExpressionVisitor.EnterOC_PropertyLookup")))
 	// format.formatFloatLiteral as written (cypher/models/cypher/format/format.go)
 	fltSrc := "<missing>"
 	if ffset, ffiles, err := parseDir(filepath.Join(repo, "cypher", "models", "cypher", "format")); err == nil {
@@ -1155,6 +1252,38 @@ func visitorFacts(repo string, w *strings.Builder) error {
 		}
 	}
 	fmt.Fprintf(w, "def srcFormatFloatLiteral : String := %s\n", leanStr(fltSrc))
+	// format.go, WriteExpression: the first statement of `case *cypher.FunctionInvocation:` (namespace) and the operand line of `case *cypher.Negation:`
+	fnNsSrc, negSrc := "<missing>", "<missing>"
+	if ffset, ffiles, err := parseDir(filepath.Join(repo, "cypher", "models", "cypher", "format")); err == nil {
+		for _, f := range ffiles {
+			ast.Inspect(f, func(n ast.Node) bool {
+				cc, ok := n.(*ast.CaseClause)
+				if !ok || len(cc.List) != 1 || len(cc.Body) == 0 {
+					return true
+				}
+				one := func(st ast.Stmt) string {
+					var b bytes.Buffer
+					_ = (&printer.Config{Mode: printer.RawFormat}).Fprint(&b, ffset, &printer.CommentedNode{Node: st, Comments: nil})
+					return strings.Join(strings.Fields(b.String()), " ")
+				}
+				switch src(ffset, cc.List[0]) {
+				case "*cypher.FunctionInvocation":
+					if fnNsSrc == "<missing>" {
+						fnNsSrc = one(cc.Body[0])
+					}
+				case "*cypher.Negation":
+					for _, st := range cc.Body {
+						if s := one(st); negSrc == "<missing>" && strings.Contains(s, "writeOperand(") {
+							negSrc = s
+						}
+					}
+				}
+				return true
+			})
+		}
+	}
+	fmt.Fprintf(w, "def srcFormatFunctionNamespace : String := %s\n", leanStr(fnNsSrc))
+	fmt.Fprintf(w, "def srcFormatNegationOperand : String := %s\n", leanStr(negSrc))
 	// token table
 	sort.Slice(lexerToks, func(i, j int) bool { return lexerToks[i].n < lexerToks[j].n })
 	var tk []string
